@@ -216,6 +216,32 @@ func runC04(r *vf.Runner) {
 		}
 		r.Case(c, func(t *vf.T) { runC04case(t, pool, c) })
 	}
+	// Diamonds: a multi-shard slice consumed twice in one invocation, directly and through a shuffle
+	// of every width, with and without a Materialize pragma on it (the programs of C08's
+	// shared-producer family, here executed): the rows must not depend on the pragma.
+	di := 0
+	for _, sc := range genC08shared() {
+		if sc.WithArg || sc.Combiners {
+			continue
+		}
+		di++
+		if r.Quick() && di%6 != 0 {
+			continue
+		}
+		for _, pragma := range []string{"materialize", ""} {
+			sp := Spec{Nodes: append([]PNode{}, sc.Spec.Nodes...)}
+			for i := range sp.Nodes {
+				if sp.Nodes[i].Pragma == "materialize" {
+					sp.Nodes[i].Pragma = pragma
+				}
+			}
+			c := c04case{Spec: sp, Confs: []execConf{defaultExec(localP4), defaultExec(bm2)}}
+			r.Case(c, func(t *vf.T) {
+				runC04case(t, pool, c)
+				t.Count("diamond_programs", 1)
+			})
+		}
+	}
 	// Combiner contention: many reduce tasks with many keys per partition share one machine, so
 	// that with machine combiners several tasks of an operator compete for the per-partition
 	// combiner of their machine while their own small frames fill up.
